@@ -363,12 +363,19 @@ pub fn run(p: &Params) -> Report {
     let mut rep = Report::new("C18");
     if let Some(r) = &p.replay {
         let seed: u64 = r["replay"]["scenario_seed"].as_str().unwrap().parse().unwrap();
-        if r["replay"]["enabled"].is_null() {
+        if r["replay"]["kind"] == "wire" {
+            wire_scenario(seed, &mut rep);
+        } else if r["replay"]["enabled"].is_null() {
             limiter_scenario(seed, &mut rep);
         } else {
             filter_scenario(seed, &mut rep);
         }
         return rep;
+    }
+    let m = p.budget(1_600, 100_000);
+    for i in 0..m {
+        let seed = p.shard_seed(0x18F_000 + i);
+        crate::util::guarded(&mut rep, seed, |rep| wire_scenario(seed, rep));
     }
     let n = p.budget(80_000, 8_000_000);
     for i in 0..n {
@@ -381,4 +388,90 @@ pub fn run(p: &Params) -> Report {
         }
     }
     rep
+}
+
+/* ------------------------------------------------------------------------------------------ */
+/* R1: the same decisions through the real recv path (`handle_inbound`) on the virtual wire    */
+
+fn wire_scenario(seed: u64, rep: &mut Report) {
+    use crate::peer::peersim::random_packet;
+    use crate::rig::r1::{runtime, RigConfig, WireRig};
+    use discv5::verif::{HandlerIn, HandlerOut, Request, RequestBody};
+    let rt = runtime(seed);
+    rt.block_on(async {
+        let mut rng = Rng::new(seed ^ 0x18F);
+        let hour = Duration::from_secs(3600);
+        let (q_total, q_ip, q_node) = (6 + rng.below(10), 2 + rng.below(3), 2 + rng.below(3));
+        let rl = RateLimiterBuilder::new().total_n_every(q_total, hour).ip_n_every(q_ip, hour).node_n_every(q_node, hour).build().unwrap();
+        let rig = WireRig::start(&mut rng, RigConfig { packet_filter: true, rate_limiter: Some(rl), ..Default::default() }).await;
+        let vid = rig.victim_id();
+        let nips = 2 + rng.below(3);
+        let nnodes = 3 + rng.below(4);
+        let node_ids: Vec<[u8; 32]> = (0..nnodes).map(|_| rng.array()).collect();
+        let mut ip_used: HashMap<IpAddr, u64> = HashMap::new();
+        let mut node_used: HashMap<[u8; 32], u64> = HashMap::new();
+        let mut total_used = 0u64;
+        let mut banned_ips: Vec<IpAddr> = Vec::new();
+        let mut banned_nodes: Vec<[u8; 32]> = Vec::new();
+        let mut log: Vec<Value> = Vec::new();
+        // an exemption: the victim waits for an answer from `exempt`
+        let exempt = SocketAddr::new(ip(0), 40000);
+        let with_exemption = rng.bool();
+        if with_exemption {
+            let sk = crate::peer::peersim::signing_key(&mut rng);
+            let enr = crate::peer::peersim::build_enr(&sk, 1, crate::peer::peersim::EnrAddr::Socket(exempt), None);
+            if let Ok(contact) = discv5::NodeContact::try_from_enr(enr, discv5::IpMode::DualStack) {
+                rig.submit(HandlerIn::Request(contact, Box::new(Request { id: discv5::RequestId(vec![1]), body: RequestBody::Ping { enr_seq: 1 } })));
+                rig.settle().await;
+                rig.take_events();
+                rig.take_sent();
+            }
+        }
+        for step in 0..(30 + rng.usize(40)) {
+            let i = rng.below(nips);
+            let j = rng.usize(node_ids.len());
+            let src = if with_exemption && rng.chance(1, 4) { exempt } else { SocketAddr::new(ip(i), 30000 + rng.below(3) as u16) };
+            let (d, _) = random_packet(&mut rng, &node_ids[j], &vid);
+            rig.inject(src, d);
+            rig.settle().await;
+            let passed = rig.take_events().iter().any(|e| matches!(&e.v, HandlerOut::WhoAreYou(w) if w.0.socket_addr == src && w.0.node_id.raw() == node_ids[j]));
+            let is_exempt = with_exemption && src == exempt && rig.exemptions().contains_key(&exempt);
+            let want = if is_exempt {
+                true
+            } else if banned_ips.contains(&src.ip()) {
+                false
+            } else if *ip_used.get(&src.ip()).unwrap_or(&0) >= q_ip {
+                banned_ips.push(src.ip());
+                false
+            } else {
+                *ip_used.entry(src.ip()).or_default() += 1;
+                if total_used >= q_total {
+                    false
+                } else {
+                    total_used += 1;
+                    if banned_nodes.contains(&node_ids[j]) {
+                        false
+                    } else if *node_used.get(&node_ids[j]).unwrap_or(&0) >= q_node {
+                        banned_nodes.push(node_ids[j]);
+                        false
+                    } else {
+                        *node_used.entry(node_ids[j]).or_default() += 1;
+                        true
+                    }
+                }
+            };
+            log.push(json!({"step": step, "src": src.to_string(), "node": j, "passed": passed, "expected": want, "exempt": is_exempt}));
+            rep.count("wire_datagrams");
+            if is_exempt {
+                rep.count("wire_exempt_datagrams");
+            }
+            if passed != want {
+                let sig = if passed { "C18:filter-too-permissive" } else if is_exempt { "C18:exempt-address-filtered" } else { "C18:filter-refuses-conforming" };
+                rep.violation(sig, format!("through the receive path a datagram from {src} was {} but the filter rules say {}", if passed { "let through" } else { "dropped" }, if want { "pass" } else { "drop" }), json!({"scenario_seed": seed.to_string(), "kind": "wire", "quota_total": q_total, "quota_ip": q_ip, "quota_node": q_node, "events": log}));
+                break;
+            }
+        }
+        rep.evaluations += 1;
+        rep.fingerprint(&("wire", q_total, q_ip, q_node, with_exemption, banned_ips.len(), banned_nodes.len()));
+    });
 }
